@@ -71,7 +71,7 @@ def year_offset(r):
 def zone(body,pool):
     r=R(body,pool); zid=r.string(); typ=r.byte()
     if typ==1:
-        off=r.millis(); name=r.string() if r.more() else zid
+        off=r.millis(); name=r.string() if r.more() else None  # older files store no name: the zone is named after the id it is requested by
         return dict(id=zid,fixed=True,offset=off,name=name)
     n=r.count(); periods=[]; start=r.transition(None)
     for _ in range(n):
